@@ -989,6 +989,26 @@ func (w *WAL) UnregisterObserver(id string) {
 	delete(w.observers, id)
 }
 
+// CarryObserversTo registers this WAL's observers with its successor. It is
+// called at log rotation, once no append can be in progress on this WAL any
+// more: without it an observer (the replication primary) would keep watching
+// a log that is never written again.
+func (w *WAL) CarryObserversTo(next *WAL) {
+	w.observersMu.RLock()
+	observers := make(map[string]WALEntryObserver, len(w.observers))
+	for id, observer := range w.observers {
+		observers[id] = observer
+	}
+	w.observersMu.RUnlock()
+
+	for id, observer := range observers {
+		next.RegisterObserver(id, observer)
+		if ro, ok := observer.(WALRotationObserver); ok {
+			ro.OnWALRotated(next)
+		}
+	}
+}
+
 // GetNextSequence returns the next sequence number that will be assigned
 func (w *WAL) GetNextSequence() uint64 {
 	w.mu.Lock()
